@@ -30,7 +30,7 @@ from .c16 import KeyedRng, canon_packet
 TRACE = True
 TRUSTED = [
     "virtual-time simulator (harness/vsim.py); a closed transport delivers nothing (asyncio's contract)",
-    "close() from a non-loop thread is the same coroutine marshalled onto the loop (threads are outside the model)",
+    "real threads (harness/c17_threads.py): recording transports on a real loop, shortened protocol constants; which thread runs when is the OS's",
 ]
 ASSUMPTIONS = [
     "'after close has returned' starts when the awaited AsyncZeroconf.async_close() completes; API calls made after that are the caller's (NotRunningException is the documented answer) and are not 'timers left behind'",
